@@ -196,6 +196,8 @@ struct GenLib {
     own: BTreeMap<String, (Vec<LeafShape>, Vec<(String, i16, P)>)>,
 }
 
+/// most shapes a generated structure may flatten to (see gen_valid)
+const FLAT_CAP: u64 = 600_000;
 fn gen_valid(rng: &mut Rng, big_arrays: bool) -> GenLib {
     let nstructs = 1 + rng.usize(5);
     // layer and datatype numbers are 16-bit signed: one library in four takes them from the whole range (negative ones, the two ends,
@@ -208,6 +210,7 @@ fn gen_valid(rng: &mut Rng, big_arrays: bool) -> GenLib {
     };
     let dtypes: Vec<i16> = if wide { (0..1 + rng.usize(2)).map(|_| *rng.pick(&[-1i16, i16::MIN, i16::MAX, -2, 256, 0])).collect() } else { vec![0, 1, 2] };
     let mut structs: Vec<GdsStruct> = Vec::new();
+    let mut flat_count: Vec<u64> = Vec::new();
     let mut own = BTreeMap::new();
     // structure names: plain indices, or families that real libraries have - names differing only in letter case, and long names that share
     // their first 32 characters (parametric device names)
@@ -293,16 +296,34 @@ fn gen_valid(rng: &mut Rng, big_arrays: bool) -> GenLib {
             texts.push((string, layer, p));
         }
         // references to earlier structs
+        // flattened size of this structure so far (its own shapes; references add their target's size times their count). Arrays nest, and
+        // sizes multiply: the total is kept under FLAT_CAP shapes per structure, or one case in a few thousand asks for billions of shapes
+        let mut flat_here: u64 = shapes.len() as u64;
         if i > 0 {
             for _ in 0..rng.usize(4) {
-                let target = names[rng.usize(i)].clone();
+                let ti = rng.usize(i);
+                let target = names[ti].clone();
+                let tsize: u64 = flat_count[ti];
                 let reflect = rng.bool();
                 let quarter = if rng.chance(1, 4) { None } else { Some(rng.range(0, 3)) };
                 let loc = (rng.range(-5000, 5000), rng.range(-5000, 5000));
+                if flat_here + tsize > FLAT_CAP {
+                    continue;
+                }
                 if rng.chance(2, 3) {
                     s.elems.push(GdsStructRef { name: target, xy: gpt(loc), strans: strans_of(reflect, quarter, rng, 5), ..Default::default() }.into());
+                    flat_here += tsize;
                 } else {
-                    let (cols, rows) = if big_arrays && rng.chance(1, 3) { if rng.chance(1, 3) { (rng.range(256, 300), rng.range(256, 262)) } else { (rng.range(150, 200), rng.range(170, 200)) } } else { (rng.range(1, 6), rng.range(1, 6)) };
+                    let (mut cols, mut rows) = if big_arrays && rng.chance(1, 3) { if rng.chance(1, 3) { (rng.range(256, 300), rng.range(256, 262)) } else { (rng.range(150, 200), rng.range(170, 200)) } } else { (rng.range(1, 6), rng.range(1, 6)) };
+                    if flat_here + (cols * rows) as u64 * tsize > FLAT_CAP {
+                        cols = rng.range(1, 6);
+                        rows = rng.range(1, 6);
+                    }
+                    if flat_here + (cols * rows) as u64 * tsize > FLAT_CAP {
+                        cols = 1;
+                        rows = 1;
+                    }
+                    flat_here += (cols * rows) as u64 * tsize;
                     let (cp, rp) = (rng.range(1, 500), rng.range(1, 500));
                     // lattice vectors: axis-aligned, rotated with the array, or arbitrary integer (skewed)
                     let (cv, rv): (P, P) = match rng.below(4) {
@@ -319,6 +340,7 @@ fn gen_valid(rng: &mut Rng, big_arrays: bool) -> GenLib {
                 }
             }
         }
+        flat_count.push(flat_here);
         own.insert(name, (shapes, texts));
         structs.push(s);
     }
